@@ -84,6 +84,10 @@ func main() {
 				add(x.OpPos, "binop", fmt.Sprintf("%s: %s -> %s", nodeStr(fset, x), from, to), func() { x.Op = to })
 			}
 		case *ast.BasicLit:
+			if x.Kind == token.STRING && len(x.Value) > 2 && x.Value[0] == '"' {
+				old := x.Value
+				add(x.Pos(), "string-lit", old+" -> one character appended", func() { x.Value = old[:len(old)-1] + "x\"" })
+			}
 			if x.Kind == token.INT {
 				if v, err := strconv.ParseInt(x.Value, 0, 64); err == nil {
 					old := x.Value
@@ -98,6 +102,19 @@ func main() {
 					nw = "false"
 				}
 				add(x.Pos(), "bool-lit", old+" -> "+nw, func() { x.Name = nw })
+			}
+		case *ast.CallExpr:
+			// swap two adjacent arguments that are both plain identifiers or selectors (wrong-variable slips)
+			for i := 0; i+1 < len(x.Args); i++ {
+				i := i
+				if simpleOperand(x.Args[i]) && simpleOperand(x.Args[i+1]) && nodeStr(fset, x.Args[i]) != nodeStr(fset, x.Args[i+1]) {
+					add(x.Pos(), "swap-args", fmt.Sprintf("%s: args %d,%d", nodeStr(fset, x), i, i+1), func() { x.Args[i], x.Args[i+1] = x.Args[i+1], x.Args[i] })
+				}
+			}
+		case *ast.UnaryExpr:
+			if x.Op == token.NOT {
+				inner := x.X
+				add(x.Pos(), "drop-not", nodeStr(fset, x), func() { x.X = &ast.UnaryExpr{Op: token.NOT, X: &ast.ParenExpr{X: inner}} })
 			}
 		case *ast.ReturnStmt:
 			// return ..., err  ->  return ..., nil
@@ -143,4 +160,14 @@ func nodeStr(fset *token.FileSet, n ast.Node) string {
 		s = s[:110] + "…"
 	}
 	return s
+}
+
+func simpleOperand(e ast.Expr) bool {
+	switch x := e.(type) {
+	case *ast.Ident:
+		return x.Name != "nil" && x.Name != "true" && x.Name != "false"
+	case *ast.SelectorExpr:
+		return simpleOperand(x.X)
+	}
+	return false
 }
